@@ -25,4 +25,14 @@ TEXT = {
         level_text="Exploration: files of 50..400 classes whose obfuscated names are prefixes, '$'/'.' variants, non-ASCII and duplicates of each other; every name, its near misses (extra char, NUL suffix, one char shorter, last char -1, case flip) and unknown strings are looked up through mapper and cache and compared with the model; remap_method is compared with the model's unambiguity rule and cross-checked against every frame remap_frame yields.",
         level_note="Trusted: reference model M. Representable domain, 8-aligned buffers.",
     ),
+    "C05": dict(
+        technique="runtime monitor: print->parse round trip against the record AST + independent reference line parser R; bounded-exhaustive token lines; corpus lines",
+        level_text="Exploration with exhaustively enumerated sub-spaces: every optional-part combination of generated record lines (4 terminators, alone and embedded in files with noise), the five documented malformed derivations of each, all token lines up to length 5/6 over a 12-token alphabet and every corpus line are parsed by the real parser and compared with the AST or with R's classification (well-formed -> exact parts, documented-malformed -> error carrying the line, otherwise totality only).",
+        level_note="Trusted: the AST printer and the ~250-line reference parser R (cross-checked against the AST on every generated line; a disagreement aborts the run as inconclusive).",
+    ),
+    "C06": dict(
+        technique="runtime monitor: invariant checks on every yielded item + metamorphic concatenation-law oracle; bounded-exhaustive short strings; panic trap",
+        level_text="Exploration with exhaustively enumerated sub-spaces: random/hostile byte strings, all strings up to length 6/7 over a 9-symbol alphabet, and corpus split points are iterated by the real record iterator; the monitor checks termination, item count <= byte count, absence of line terminators in every yielded field, and records(A+nl+B) == records(A)++records(B) for nl in {LF, CRLF, CR}; mapper construction and cache writing run on the same bytes under the panic trap.",
+        level_note="Trusted: the harness's item normalisation (error line without terminators). No grammar model is needed for this property.",
+    ),
 }
